@@ -184,13 +184,13 @@ def simplify(e):
             op = inner[1][:-len("WithOverflow")]
             if a[0] == "const" and b[0] == "const" and isinstance(a[1], int) and isinstance(b[1], int) and op in _OPS:
                 return ("const", _OPS[op](a[1], b[1]))
-            return ("bin", op, a, b)
+            return ("bin", op, a, b) + tuple(inner[4:])
         return ("proj", inner, e[2])
     if k == "bin":
         a, b = simplify(e[2]), simplify(e[3])
         if a[0] == "const" and b[0] == "const" and isinstance(a[1], int) and isinstance(b[1], int) and e[1] in _OPS:
             return ("const", _OPS[e[1]](a[1], b[1]))
-        return ("bin", e[1], a, b)
+        return ("bin", e[1], a, b) + tuple(e[4:])
     if k == "cast":
         a = simplify(e[1])
         if a[0] == "const" and isinstance(a[1], int) and e[3] == "IntToInt":
@@ -199,7 +199,7 @@ def simplify(e):
     if k in ("call", "agg"):
         return (k, e[1], tuple(simplify(a) for a in e[2])) + tuple(e[3:])
     if k in ("ref", "discr"):
-        return (k, simplify(e[1]))
+        return (k, simplify(e[1])) + tuple(e[2:])
     if k == "un":
         return ("un", e[1], simplify(e[2]))
     return e
@@ -213,6 +213,14 @@ def show(e, depth=0):
         return repr(e[1]) if not isinstance(e[1], int) else ("0x%X" % e[1] if e[1] > 9 else str(e[1]))
     if k == "constparam":
         return e[1]
+    if k == "upvar":
+        return "^" + e[1]
+    if k == "len":
+        return "len(%s)" % show(e[1])
+    if k == "constbytes":
+        return "<%d bytes>" % e[1]
+    if k == "repeat":
+        return "[%s; _]" % show(e[1])
     if k == "path":
         return ".".join((e[1],) + e[2])
     if k == "var":
